@@ -171,6 +171,8 @@ func monitor(c hxlib.Case, outs []string) (vs []hxlib.Violation) {
 		case "park":
 			if strings.HasPrefix(o, "park ok") {
 				parked++
+			} else if strings.HasPrefix(o, "park") {
+				capN = -1 // the state of the consumer is not known: nothing is demanded of the channel any more
 			}
 		case "recv", "recvn":
 			if !strings.HasPrefix(o, "recv") {
@@ -249,6 +251,9 @@ func monitor(c hxlib.Case, outs []string) (vs []hxlib.Violation) {
 				add("C06:lifecycle-panic-no-error:manage", "a control routine's panic was reported but ManageModules returned nil")
 			}
 		case "shutdown":
+			if o == "shutdown noreturn" {
+				add("C06:stop-stalled:"+firstPanicKind, "Shutdown did not return (it waits for each module no longer than the stop timeout)")
+			}
 			if !strings.HasPrefix(o, "shutdown ret=") {
 				continue
 			}
